@@ -389,10 +389,15 @@ func runC08(w *World, c *Check) {
 			c.Fail("C08.salt", fk, "string-to-key", w.Pos(fn.Pos()), "one StringToKey call derives the key", fmt.Sprintf("%d calls", len(calls)))
 		} else {
 			args := fa.CallArgs(calls[0])
+			for i := range args {
+				for k := 0; k < 3; k++ {
+					args[i] = fa.R.ExpandLoopSyms(args[i])
+				}
+			}
 			where := w.Pos(InstrPos(calls[0]))
 			c.Decide(fa.M(`passwd`, args[1]), "C08.salt", fk, "password", where, "the password parameter is what is stretched", "secret operand is "+args[1])
-			c.Decide(fa.M(`φ\(types\.\(PrincipalName\)\.GetSalt\(cname, realm\)\|.*\)`, args[2]), "C08.salt", fk, "salt-default", where, "the salt is the KDC-supplied one or, failing that, cname.GetSalt(realm)", "salt operand is "+trunc(args[2], 200))
-			def := fa.MatchGuard(EqPass(`""`, `φ\(.*\)`))
+			c.Decide(fa.M(`φ\(.*types\.\(PrincipalName\)\.GetSalt\(cname, realm\).*\)`, args[2]), "C08.salt", fk, "salt-default", where, "the salt is the KDC-supplied one or, failing that, cname.GetSalt(realm)", "salt operand is "+trunc(args[2], 200))
+			def := fa.MatchGuard(EqPass(`""`, `\$L\d+|φ\(.*\)`))
 			c.Decide(len(def) > 0, "C08.salt", fk, "default-only-when-empty", where, "the default salt is used only when no salt was supplied", "no emptiness test of the salt")
 			c.Decide(strings.Contains(args[3], "GetDefaultStringToKeyParams") && strings.Contains(args[3], "S2KParams"), "C08.salt", fk, "s2kparams", where, "parameters are the etype default or the KDC-supplied ones", "params operand is "+trunc(args[3], 200))
 			c.Decide(len(fa.MatchGuard(EqPass("4", `len\(.*\.S2KParams\)`))) > 0, "C08.salt", fk, "s2kparams-4-bytes", where, "only 4-byte s2kparams are decoded", "no length test")
